@@ -3,7 +3,7 @@ import GB.C03.ProofsBuild
   C03 helper lemmas: the opcode *program* `Compile` emits, run on the gateway's stack machine, computes the
   structural matcher `matchSegs`. Here the program is read symbolically (`SOp`: operands are the strings
   themselves, i.e. `rawOps` of compile.go before the constant pool is built); the resolution of pool / variable
-  indices (`encode`, `npLoop`) is tied by the differential run only (see docs/notes/C03.md).
+  indices (`encode`, `npLoop`, `runOps`) is ProofsResolve.lean.
 -/
 namespace GB.C03
 set_option linter.unusedSimpArgs false
